@@ -80,6 +80,14 @@ func caseC05(c *Ctx) {
 			forest[0].Kids = append(forest[0].Kids, &MNode{Name: fmt.Sprintf("pad%d-%s", len(forest[0].Kids), strings.Repeat("p", 200))})
 		}
 		c.st.Count("document>4KiB")
+	} else if c.Chance(1, 15) {
+		// one line longer than 4 KiB (and shorter than bufio.Scanner's 64 KiB limit)
+		n := forest[c.Draw(len(forest))]
+		for len(n.Kids) > 0 && c.Draw(2) == 0 {
+			n = n.Kids[c.Draw(len(n.Kids))]
+		}
+		n.Name += "-" + strings.Repeat("L", 4100+c.Draw(9000))
+		c.st.Count("line>4KiB")
 	}
 	if c.Chance(1, 12) {
 		// one node is called "." or "..": still a single path element, but not one that a
